@@ -7,7 +7,9 @@ from layers.fvm1d import layer_rhs1d
 
 MODULE = 'Flowdyn.Props.C19'
 THEOREMS = core.theorems_in(['C19.lean'], 'Flowdyn.C19')
-PARTIAL = {"2D": "fvm2dcart.add_source is checked by the sweep on the implementation only"}
+AUDIT_IMPORTS = ['Flowdyn.Props.KernelsBridge']
+THEOREMS = THEOREMS + ['Flowdyn.GenK.%s_eq' % k for k in ['nozSrcMass', 'nozSrcMom', 'nozSrcEnergy']]
+PARTIAL = {"2D": "the property names Euler 1D, nozzle and shallow water; fvm2dcart.add_source (same loop) is exercised by the sweep only"}
 LEVEL_NOTE = "add_source and the nozzle source composition/geometric term proved on the model; tie through L-rhs1d (nozzle residuals with sources) and L-noz"
 
 
